@@ -18,7 +18,7 @@ def gen_case(rng, ndims=None, kinds=None, max_n=4, n_resp=None, min_base_choices
             kinds = kinds[:2]
     vars_ = [gen.gen_var(rng, k, "v%d" % i, n=rng.randint(1, max_n), missing_items=missing_items, derived_items=derived_items) for i, k in enumerate(kinds)]
     weighted = rng.random() < 0.65
-    survey = gen.gen_survey(rng, vars_, n_resp=n_resp, weighted=weighted)
+    survey = gen.gen_survey(rng, vars_, n_resp=n_resp, weighted=weighted, tiny=True)
     return {"vars": [v.to_json() for v in vars_], "survey": gen.survey_to_json(survey),
             "weighted": weighted, "min_base": rng.choice(list(min_base_choices))}
 
